@@ -242,7 +242,9 @@ func (s *manager) shutdownSession(ctx context.Context, session *sessions.Session
 	metadata, err := s.state.SessionMetadatas().ByClientIDInMountPoint(session.MountPoint(), session.ClientID())
 	if err == nil {
 		if metadata.SessionID != session.ID() {
-			// Session has reconnected on another peer.
+			// Session has reconnected on another peer. That peer removed this session's record only if it
+			// had heard of it when it accepted the new connection: the record is still ours to remove.
+			s.state.SessionMetadatas().Delete(session.ID())
 			return
 		}
 		s.state.SessionMetadatas().Delete(session.ID())
